@@ -15,6 +15,11 @@ for s in $LIST; do
   [ "$s" = "C08-H" ] && checks="C08 C04"   # "its CID may be announced again" is C04's clause
   [ "$s" = "C07-H" ] && checks="C07 C06"   # the HTTP source adapter: C06's HTTP-source unit
   [ "$s" = "C17-G" ] && checks="C17 C06"
+  [ "$s" = "C01-I" ] && checks="C01 C08"   # latest-sync forgotten after the idle period: C08's exactly-once oracle
+  [ "$s" = "C01-J" ] && checks="C01 C03"   # publisher head cache race: C03's publisher unit
+  [ "$s" = "C07-I" ] && checks="C07 C06"
+  [ "$s" = "C07-J" ] && checks="C07 C06"
+  [ "$s" = "C14-J" ] && checks="C14 C08"   # idle cleaner vs a sync waiting for its head: C08's long-sync unit
   cd /repo; if [ -n "$(git status --porcelain)" ]; then echo "/repo dirty"; exit 2; fi
   if ! git apply /verif/seeded/$s/patch.diff 2>/dev/null; then
     if ! patch -p1 --no-backup-if-mismatch -s < /verif/seeded/$s/patch.diff >/dev/null 2>&1; then git checkout -- .; git clean -fdq; echo "$s: patch does not apply to the current tree"; echo "{\"applies\": false}" > /verif/seeded/$s/detection.json; continue; fi
